@@ -736,13 +736,13 @@ func (s *ResettableKeystore) ResetCids(ctx context.Context, keysChan <-chan cid.
 	case <-s.done:
 		return ErrClosed
 	case s.resetOps <- resetOp{ctx: ctx, op: opStart, response: opsChan}:
-		select {
-		case err := <-opsChan:
-			if err != nil {
-				return err
-			}
-		case <-ctx.Done():
-			return ctx.Err()
+		// The worker always answers. Giving up on ctx.Done here would leave it
+		// blocked forever on the unbuffered response channel, with the reset
+		// marked in progress and nobody left to run opCleanup. A cancelled
+		// ctx makes prepareAltDs fail, or is noticed by Phase A below, which
+		// cleans up.
+		if err := <-opsChan; err != nil {
+			return err
 		}
 	}
 
